@@ -48,7 +48,7 @@ impl CaseKind for ScalarCase {
                     Ok(g) => g as f64,
                     Err(p) => return Outcome::fail("unexpected-panic", "unexpected-panic:sum_all".into(), format!("sum_all on dims {:?} panicked: {}", l.dims, p), k.finish(), classes),
                 };
-                let exact = l.vals.iter().all(|v| refmodel::model::is_exact_value(*v)) && want.vm < EXACT_LIMIT;
+                let exact = l.vals.iter().all(|v| refmodel::model::is_exact_value(*v)) && want.vm < exact_limit();
                 if close(got, want.v, want.vm, exact) {
                     Outcome::pass(l.vals.len() > 1, k.finish(), classes)
                 } else {
